@@ -1,4 +1,65 @@
 package main
 
-// structural facts are added in a later step (lock regions, install sites, loops).
-func structural(pkgs map[string]*pkgInfo) {}
+import (
+	"fmt"
+	"go/ast"
+	"go/constant"
+	"sort"
+	"strings"
+)
+
+// structural facts: statuses written by the preflight handler (more are added by other files).
+func structural(pkgs map[string]*pkgInfo) {
+	p := pkgs["cors"]
+	if p == nil {
+		return
+	}
+	failStatuses(p)
+	moreStructural(pkgs)
+}
+
+func funcDecl(p *pkgInfo, name string) *ast.FuncDecl {
+	for _, f := range p.files {
+		for _, d := range f.Decls {
+			if fd, ok := d.(*ast.FuncDecl); ok && fd.Name.Name == name {
+				return fd
+			}
+		}
+	}
+	return nil
+}
+
+// failStatuses: the constant arguments of WriteHeader in handleCORSPreflight (the non-constant
+// ones are the configured success status).
+func failStatuses(p *pkgInfo) {
+	fd := funcDecl(p, "handleCORSPreflight")
+	set := map[int64]bool{}
+	nonConst := 0
+	if fd != nil {
+		ast.Inspect(fd, func(n ast.Node) bool {
+			call, ok := n.(*ast.CallExpr)
+			if !ok || !strings.HasSuffix(calleeName(call), ".WriteHeader") || len(call.Args) != 1 {
+				return true
+			}
+			if tv, ok := p.info.Types[call.Args[0]]; ok && tv.Value != nil && tv.Value.Kind() == constant.Int {
+				v, _ := constant.Int64Val(tv.Value)
+				set[v] = true
+			} else {
+				nonConst++
+			}
+			return true
+		})
+	}
+	var vals []int64
+	for v := range set {
+		vals = append(vals, v)
+	}
+	sort.Slice(vals, func(i, j int) bool { return vals[i] < vals[j] })
+	parts := make([]string, len(vals))
+	for i, v := range vals {
+		parts[i] = fmt.Sprint(v)
+	}
+	add("cors_preflightFailStatuses", ": List Nat := ["+strings.Join(parts, ", ")+"]",
+		"distinct constant arguments of WriteHeader in handleCORSPreflight")
+	add("cors_preflightNonConstStatusSites", fmt.Sprintf(": Nat := %d", nonConst), "WriteHeader calls with a computed (success) status")
+}
